@@ -15,6 +15,8 @@ A case (JSON-able dict):
   protected [tag]       top-level triggers whose task is put into machine.protected_tasks
   triggers  [[model, event]]          top-level triggers, tags 0..n-1, started in this order; model -1 = machine.dispatch(event):
                                       the event of model i then has tag 100 + 10 * k + i
+  sparse    [slot]      callback slots left EMPTY (no recorders)
+  timeout   bool        every state carries the AsyncTimeout feature (timer armed on entry, never fires)
   kinds     {"1": k, "2": k}          flavour of the recorders with index 1 / 2: 0 coroutine function, 1 plain function returning
                                       a Task, 2 … a bare Future, 3 … an object with __await__
   script    {"tag:slot:idx": [op]}    what that recorder does when invoked for that tag
@@ -38,11 +40,12 @@ import sys
 
 from . import common  # noqa: F401  (puts the repo under test on sys.path)
 
-from transitions.extensions.asyncio import AsyncMachine, HierarchicalAsyncMachine  # noqa: E402
+from transitions.extensions.asyncio import AsyncMachine, HierarchicalAsyncMachine, AsyncTimeout  # noqa: E402
+from transitions.extensions.states import add_state_features  # noqa: E402
 
 PRE = ['prepare_event', 'prepare', 'conditions']
 MID = ['before_state_change', 'before', 'on_exit', 'on_exit_c']        # *_c: callbacks of the nested states B_x / B_y
-POST = ['on_enter', 'on_enter_c', 'after', 'after_state_change']
+POST = ['on_enter', 'on_enter_c', 'on_final', 'after', 'after_state_change']
 TRANSITION_SLOTS = PRE + MID + POST
 FLAT_TRANSITION_SLOTS = [x for x in TRANSITION_SLOTS if not x.endswith('_c')]
 SLOTS = TRANSITION_SLOTS + ['finalize_event', 'on_exception']
@@ -180,22 +183,40 @@ class Run(object):
 
         self.models = [Model() for _ in range(case['n_models'])]
 
+        sparse = set(case.get('sparse', []))
+
         def recs(slot):
-            # idx 0 plain function, idx 1 coroutine (suspends only), idx 2 coroutine (may also raise / trigger)
+            # idx 0 plain function, idx 1 coroutine (suspends only), idx 2 coroutine (may also raise / trigger);
+            # slots listed in case['sparse'] have NO callbacks: the library's own await points are then the only
+            # places where the event can be suspended
+            if slot in sparse:
+                return []
             return [self.recorder(slot, 0), self.recorder(slot, 1), self.recorder(slot, 2)]
+
+        if case.get('timeout'):
+            # every state carries the AsyncTimeout feature with a timer that is armed on entry and never fires
+            M = add_state_features(AsyncTimeout)(M)
+
+        def st(d):
+            if case.get('timeout'):
+                d = dict(d, timeout=100000, on_timeout=[lambda event_data: None])
+            if 'children' in d:
+                d['children'] = [st(c) for c in d['children']]
+            return d
 
         if case['hsm']:
             states = [{'name': 'A', 'on_enter': recs('on_enter'), 'on_exit': recs('on_exit')},
                       {'name': 'B', 'on_enter': recs('on_enter'), 'on_exit': recs('on_exit'), 'initial': 'x',
                        'children': [{'name': 'x', 'on_enter': recs('on_enter_c'), 'on_exit': recs('on_exit_c')},
                                     {'name': 'y', 'on_enter': recs('on_enter_c'), 'on_exit': recs('on_exit_c')}]},
-                      {'name': 'C', 'on_enter': recs('on_enter'), 'on_exit': recs('on_exit')}]
+                      {'name': 'C', 'on_enter': recs('on_enter'), 'on_exit': recs('on_exit'), 'final': True}]
         else:
-            states = [{'name': s, 'on_enter': recs('on_enter'), 'on_exit': recs('on_exit')} for s in STATES]
+            states = [{'name': s, 'on_enter': recs('on_enter'), 'on_exit': recs('on_exit'), 'final': s == 'C'} for s in STATES]
+        states = [st(d) for d in states]
 
         def tr(trigger, source, dest):
             return {'trigger': trigger, 'source': source, 'dest': dest, 'prepare': recs('prepare'),
-                    'conditions': [self.recorder('conditions', 2)], 'before': recs('before'), 'after': recs('after')}
+                    'conditions': [] if 'conditions' in sparse else [self.recorder('conditions', 2)], 'before': recs('before'), 'after': recs('after')}
         transitions = [tr('go', 'A', 'B'), tr('go', 'B', 'C'), tr('go', 'C', 'A'), tr('hop', 'A', 'C'),
                        tr('stay', 'A', None), tr('stay', 'B', None), tr('stay', 'C', None)]
         if case['hsm']:
@@ -210,6 +231,7 @@ class Run(object):
                          auto_transitions=False, ignore_invalid_triggers=case.get('ignore', False), send_event=True,
                          prepare_event=recs('prepare_event'), before_state_change=recs('before_state_change'),
                          after_state_change=recs('after_state_change'), finalize_event=recs('finalize_event'),
+                         on_final=recs('on_final'),
                          on_exception=recs('on_exception') if case['on_exc'] else None)
         # how the models get attached is part of the case: constructor list | ONE add_model call with the list |
         # one add_model call per model; models in case['late'] are attached by a callback during the run
